@@ -90,7 +90,7 @@ theorem down_next {P : Par} (hP : P.Ok) {frame : List Nat} {w : W} {c0 : Client.
       hpf.doQtype.trans hc.ty, hpf.cid, by rw [hpf.datacmc]; exact hc.cmc, by rw [hpf.ldt, hpf.now]; exact hc.alive,
       by rw [hpf.outpkt]; exact hc.oseq, by rw [hpf.inpkt]; exact hc.iseq, by rw [hpf.inpkt]; exact hc.ifrag,
       by rw [hpf.seed]; exact Nat.mod_lt _ (by omega)⟩
-  generalize hrq : (Client.Rq.mk (pkt.length : Int) (pingState c0).chunkid P.ty 0 (name.headD 0) pkt) = rq
+  generalize hrq : (Client.Rq.mk (pkt.length : Int) (pingState c0).chunkid (answerType P.ty) 0 (name.headD 0) pkt) = rq
   have hrok : RecvOk P (pingState c0) rq pkt := by
     subst hrq
     refine ⟨hcst, ?_, hpf.sps, ?_, rfl, rfl, rfl⟩
